@@ -51,7 +51,13 @@ def _key_rules(r):
     if isinstance(r, EquivalencePathRule):
         for x in r.rules:
             yield from _key_rules(x)
-    elif isinstance(r, EquivalenceRule) and len(r.shifts()) != len(r.children):
+    elif isinstance(r, EquivalenceRule) and (hasattr(r.strategy, "sid") or len(r.shifts()) != len(r.children)):
+        # EquivalenceRule.shifts() asks the STRATEGY for the shifts of (parent, the one non-empty
+        # child) — a pair the strategy may never have produced (equivalence form of a reverse rule).
+        # The library's own strategy families answer 0 there; a table strategy (attribute `sid`)
+        # reads its table by class and would answer with the shifts of ANOTHER rule of that class
+        # (false alarm seen with seed 1: class 0 has its own unary rule with shift -1 and is also the
+        # child of a two-way rule with shifts (0, 1)).  Judge the rule it stands for instead.
         yield from _key_rules(r.original_rule)
     else:
         yield r
